@@ -120,7 +120,15 @@ func (b *build) runSingle(prop, tier string, tape []int, trace bool, avoid []str
 			infra("harness panic in single run:\n%s", errb.String())
 		}
 		res.crashed = true
-		res.output = tail(errb.String(), 60)
+		var rest []string
+		for _, l := range strings.Split(errb.String(), "\n") {
+			if strings.HasPrefix(l, "TRACE ") {
+				res.Trace = append(res.Trace, strings.TrimPrefix(l, "TRACE "))
+			} else {
+				rest = append(rest, l)
+			}
+		}
+		res.output = tail(strings.Join(rest, "\n"), 60)
 		return res
 	}
 	if err := json.Unmarshal(out.Bytes(), res); err != nil {
@@ -568,17 +576,20 @@ func (b *build) handleCrash(prop, tier string, seed int64, c crashRec, avoid []s
 	}
 	class := prop + "/worker-crash/run"
 	min, tries := b.shrink(prop, tier, tape, class, avoid)
-	fin := b.runSingle(prop, tier, min, false, avoid)
+	fin := b.runSingle(prop, tier, min, true, avoid)
 	if !fin.crashed {
 		min = tape
-		fin = conf
+		fin = b.runSingle(prop, tier, min, true, avoid)
 	}
 	rf := replayFile{Property: prop, Engine: engineOf(prop), VerifSeed: seed, Run: c.run, Tier: tier, Tape: min, Avoid: avoid,
 		Violation: &violation{Property: prop, Oracle: "worker-crash", Op: "run", Message: "the process executing this run died on a fatal runtime error"},
-		Crash:     fin.output, ShrinkTries: tries, OriginalTape: len(tape)}
+		Crash:     fin.output, Trace: fin.Trace, ShrinkTries: tries, OriginalTape: len(tape)}
 	rf.Tree.Head, rf.Tree.Dirty = b.head, b.dirty
 	path := filepath.Join(verifDir, "replays", fmt.Sprintf("%s-worker-crash-seed%d-run%d.json", prop, seed, c.run))
 	writeJSON(path, rf)
-	fmt.Printf("violation %s: run %d kills the process:\n%s\n", class, c.run, fin.output)
+	fmt.Printf("violation %s: run %d kills the process:\n%s\n", class, c.run, tail(fin.output, 12))
+	for _, t := range fin.Trace {
+		fmt.Println("    " + t)
+	}
 	return path, true
 }
